@@ -103,14 +103,26 @@ def ops : List (String × Handler) := [
     return Json.mkObj [("key", str (bulkKey t))]),
   -- tables + routes files; a file is a list of upsert batches, a batch is one entry (name, route, id, crud)
   ("c16.bulk", fun j => do
-    let ts ← (← getArr j "tables").toList.mapM (fun t => do
-      return ({ name := ← getChars t "name", schema := ← decDict (← t.getObjVal? "schema") } : Table))
+    let decTable (t : Json) : Except String (Option Table) :=
+      match t with
+      | .null => pure none
+      | t => do return some ({ name := ← getChars t "name", schema := ← decDict (← t.getObjVal? "schema") } : Table)
+    let nodes ← (← getArr j "nodes").toList.mapM (fun n => do
+      let tbl ← decTable ((n.getObjVal? "table").toOption.getD .null)
+      if (← getStr n "kind") == "class" then
+        let bases ← (← getArr n "bases").toList.mapM (fun b => do return (← b.getStr?).toList)
+        return SrcNode.classDef bases tbl
+      else
+        let a1 := match n.getObjVal? "arg1" with
+          | .ok (.str s) => some s.toList
+          | _ => none
+        return SrcNode.call (← getNat n "nargs") a1 tbl)
     let app ← getChars j "app"
     let files ← (← getArr j "files").toList.mapM (fun f => do
       let bs ← f.getArr?
       bs.toList.mapM (fun b => do return (← getChars b "app", ← decEntry b)))
     let routes := files.flatMap (fun batches => visibleRoutes (batches.map (fun b => genRoutes b.1 b.2)))
-    return exceptJson ((bulk app ts routes).map report)),
+    return exceptJson ((bulkSrc app nodes routes).map report)),
   -- tables + explicit route functions (path, method, payload = what bottle() returned)
   ("c16.bulk_raw", fun j => do
     let ts ← (← getArr j "tables").toList.mapM (fun t => do
